@@ -212,6 +212,18 @@ SPECIAL_RESULTS = [
     ("true && 'x'", 's"x"'), ("void 0", "N"), ("[].concat([1], [2])", "[d3ff0000000000000,d4000000000000000]"),
     ("({'': 1, ' ': 2})", '{"":d3ff0000000000000," ":d4000000000000000}'),
     ("(function () { return arguments })(1, 2)", "[d3ff0000000000000,d4000000000000000]"),
+    # a key that stopped being (or became) a data property: the dict holds the own DATA properties as they are now
+    ("var o = {a: 1, b: 2}; Object.defineProperty(o, 'a', {set: function (v) { }, enumerable: true, configurable: true}); o", '{"b":d4000000000000000}'),
+    ("var o = {a: 1, b: 2}; Object.defineProperty(o, 'a', {get: function () { return 9 }, enumerable: true, configurable: true}); o", '{"b":d4000000000000000}'),
+    ("var o = {a: 1, b: 2}; Object.defineProperty(o, 'a', {get: function () { return 9 }, set: function (v) { }, enumerable: true, configurable: true}); [o, {k: o}]",
+     '[{"b":d4000000000000000},{"k":{"b":d4000000000000000}}]'),
+    ("var o = {a: 1, b: 2}; Object.defineProperties(o, {a: {set: function (v) { }, enumerable: true, configurable: true}}); o", '{"b":d4000000000000000}'),
+    ("var o = {get a() { return 1 }, b: 2}; Object.defineProperty(o, 'a', {value: 5, writable: true, enumerable: true, configurable: true}); o",
+     '{"a":d4014000000000000,"b":d4000000000000000}'),
+    ("var o = {a: 1, b: 2}; delete o.a; o.a = 3; o", '{"b":d4000000000000000,"a":d4008000000000000}'),
+    ("var o = {a: 1}; Object.defineProperty(o, 'a', {set: function (v) { }, enumerable: true, configurable: true}); o.a = 7; o", "{}"),
+    ("var o = {a: 1, set b(v) { this.a = v }}; o.b = 4; o", '{"a":d4010000000000000}'),
+    ("var o = {a: {b: 1}}; Object.defineProperty(o.a, 'b', {get: function () { return 2 }, enumerable: true, configurable: true}); o", '{"a":{}}'),
 ]
 
 
@@ -508,6 +520,110 @@ def _call_form_cases():
     return [("exposed callable via %s: %s" % (n, src), {"src": src, "exp": exp}) for n, src, exp in CALL_FORMS]
 
 
+# the same host function exposed as different kinds of Python callable; and a callable that keeps returning ONE mutable object
+def _callable_kinds():
+    from mc.props import c03
+    return list(c03.CALLABLE_KINDS)
+
+
+def run_callable_kind(payload):
+    from mc.props.common import engine
+    from mc.props import c03
+    e = engine()
+    e.CLOCK.reset("poll")
+    ctx = e.Context(time_limit=100)
+    got = []
+    ret = payload["ret"]
+
+    def f(*args):
+        got.append(args)
+        return json.loads(json.dumps(ret))
+
+    exposed = c03._callable_of_kind(payload["kind"], f)
+    how = payload["install"]
+    obs = []
+    try:
+        if how == "set":
+            ctx.set("f", exposed)
+        else:
+            ctx.set("api", {"f": exposed, "l": [exposed]})
+            ctx.eval("var f = api.f;")
+        obs.append(canon(ctx.eval("var r = f(1, 'a'); [Array.isArray(r), typeof r, r === null ? 'null' : Array.isArray(r) ? 'len' + r.length : typeof r === 'object' ? Object.keys(r).join('+') : String(r), "
+                                  "JSON.stringify(r), typeof f, f(2) === f(3) || typeof f(2) === 'object']")))
+        back = ctx.get("f")
+        obs.append("get:" + ("same" if back is exposed else "callable" if callable(back) else type(back).__name__))
+        obs.append("calls:%d" % len(got))
+    except Exception as ex:  # noqa: BLE001
+        obs.append("raises " + type(ex).__name__)
+    js = json.dumps(ret, separators=(",", ":"))
+    if isinstance(ret, list):
+        want0 = [True, "object", "len%d" % len(ret), js, "function", True]
+    elif isinstance(ret, dict):
+        want0 = [False, "object", "+".join(ret), js, "function", True]
+    else:
+        want0 = [False, "number", "7", "7", "function", True]
+    want = [canon(want0), "get:same", "calls:%d" % (3 if not isinstance(ret, (list, dict)) else 4)]
+    return " ".join(obs) + "\x00" + " ".join(want)
+
+
+def _callable_kind_cases():
+    out = []
+    for kind in _callable_kinds():
+        for how in ("set", "nested"):
+            for ret in ([1, [2]], {"a": 1, "b": [2]}, 7, []):
+                out.append(("%s exposed by %s returning %r" % (kind, how, ret), {"kind": kind, "install": how, "ret": ret}))
+    return out
+
+
+def run_same_object(payload):
+    """A callable that returns the SAME mutable Python object every time: every call hands the script a fresh conversion of its
+    current contents."""
+    from mc.props.common import engine
+    e = engine()
+    e.CLOCK.reset("poll")
+    ctx = e.Context(time_limit=100)
+    holder = [1] if payload["mk"] == "list" else {"a": 1}
+    calls = [0]
+
+    def f(*args):
+        calls[0] += 1
+        if payload["python_mutates"]:
+            if isinstance(holder, list):
+                holder.append(calls[0])
+            else:
+                holder["n%d" % calls[0]] = calls[0]
+        return holder
+
+    ctx.set("f", f)
+    obs, want = [], []
+    try:
+        for step, src in enumerate(payload["steps"]):
+            r = ctx.eval(src)
+            obs.append(canon(r))
+    except Exception as ex:  # noqa: BLE001
+        obs.append("raises " + type(ex).__name__)
+    return " | ".join(obs) + "\x00" + " | ".join(payload["want"])
+
+
+def _same_object_cases():
+    L, D = "list", "dict"
+    n = lambda x: canon(x)
+    return [
+        ("list returned twice, script edits the first copy", {"mk": L, "python_mutates": False,
+         "steps": ["var a = f(); a.push(9); var b = f(); [a.length, b.length, a === b]"], "want": [n([2, 1, False])]}),
+        ("list returned twice across evals, script edits the first copy", {"mk": L, "python_mutates": False,
+         "steps": ["var a = f(); a.push(9); a.length", "var b = f(); [a.length, b.length, a === b]"], "want": [n(2), n([2, 1, False])]}),
+        ("list that the host appends to on every call", {"mk": L, "python_mutates": True,
+         "steps": ["[f().length, f().length, f().length]", "f().length"], "want": [n([2, 3, 4]), n(5)]}),
+        ("dict returned twice, script edits the first copy", {"mk": D, "python_mutates": False,
+         "steps": ["var a = f(); a.z = 1; var b = f(); [Object.keys(a).length, Object.keys(b).length, a === b]"], "want": [n([2, 1, False])]}),
+        ("dict that the host adds a key to on every call", {"mk": D, "python_mutates": True,
+         "steps": ["[Object.keys(f()).length, Object.keys(f()).length]", "Object.keys(f()).join()"], "want": [n([2, 3]), n("a,n1,n2,n3")]}),
+        ("same list as a callback result", {"mk": L, "python_mutates": True,
+         "steps": ["[1, 2].map(f).map(function (x) { return x.length }).join()"], "want": [n("2,3")]}),
+    ]
+
+
 def _sp(name, runner, fn, rule, bound, batch=100):
     return Space(name, "mc.props.c11:" + runner, fn, oracle="inline", rule=rule, bound=bound, batch=batch, watchdog=60,
                  nontrivial=lambda cid, p, exp: True)
@@ -553,6 +669,13 @@ def spaces(tier, seed, all_strata=False):
             "two bound copies, method, callbacks of built-ins, new, stored and called later, getter, valueOf, comparator, replace "
             "callback), each run twice on one context: argument tuples as listed, and identical on the second round" % len(CALL_FORMS),
             "%d forms x 2 rounds" % len(CALL_FORMS), batch=4),
+        _sp("c11_callable_kinds", "run_callable_kind", _callable_kind_cases,
+            "one host function exposed as 10 kinds of Python callable (plain, lambda, partial, functools.wraps, lru_cache, bound method, "
+            "callable instance, static / class method, closure) x installed by set or nested in a dict x 4 return kinds: the script gets "
+            "arrays / objects / numbers, the callable is a function, get() hands the same callable back", "10 x 2 x 4", batch=10),
+        _sp("c11_same_object", "run_same_object", _same_object_cases,
+            "a callable that returns one and the same mutable Python object on every call (changed by the host, or its copy changed by "
+            "the script, in between): every call delivers a fresh conversion of the current contents", "6 scenarios", batch=2),
         _sp("c11_chains", "run_roundtrip", _chains, "nesting chains of depth 10..2000, shared sub-objects, non-JSON host values",
             "depth sweep", batch=2),
         _sp("c11_histories_d4", "run_history", lambda: _histories(4),
